@@ -383,12 +383,53 @@ def check(prop, tier, seed, replay=None):
         moved = moved_fns(prop, cfg)
         if moved:
             notes.append("functions whose token hash differs from tools/fn_hashes.pinned.json in files this property is anchored in: " + ", ".join(moved[:12]) + (" …" if len(moved) > 12 else ""))
-        rc, out, dt_lake, errs = lake_build(cfg["lean_modules"] + ["bvdrive"])
+        # Lean modules of the property: CORE modules carry the property theorems over the hand-written models;
+        # TIE modules (BV.Props.CnnGen, except those listed as direct) only prove "definition generated from the
+        # Rust text = hand-written model" (tie (a) for control flow, an ADDITIONAL tie: the same functions are
+        # compared with the compiled code by the correspondence run, tie (b)).  A tie module that no longer
+        # builds (function rewritten outside the translator's subset, or the proof script no longer matches the
+        # new term) degrades tie (a) for those functions: it is reported (TIE-DEGRADED line, evidence), the
+        # search is escalated, and it is a violation only together with a disagreement or a failing input.
+        direct = set(cfg.get("direct_gen_modules", ["BV.Props.C01Gen"]))
+        tie_mods = [m for m in cfg["lean_modules"] if re.search(r"\.C\d\d[a-z]*Gen[A-Z]?$", m) and m not in direct]
+        core_mods = [m for m in cfg["lean_modules"] if m not in tie_mods]
+        rc, out, dt_lake, errs = lake_build(core_mods + ["bvdrive"])
         lean_ok = rc == 0
-        if g.get("errors"):
+        tie_ok, tie_bad = [], {}
+        if lean_ok and tie_mods:
+            rc_t, out_t, dt_t, errs_t = lake_build(tie_mods)
+            dt_lake += dt_t
+            if rc_t == 0:
+                tie_ok = list(tie_mods)
+            else:
+                for m in tie_mods:
+                    rc_m, out_m, dt_m, errs_m = lake_build([m])
+                    dt_lake += dt_m
+                    if rc_m == 0:
+                        tie_ok.append(m)
+                    else:
+                        idx = {}
+                        msgs = []
+                        for e in errs_m[:6]:
+                            path = os.path.join(LEAN, e["file"])
+                            if path not in idx and os.path.exists(path):
+                                idx[path] = theorem_index(path)
+                            th = "?"
+                            for ln, name in idx.get(path, []):
+                                if ln <= e["line"]:
+                                    th = name
+                            msgs.append("%s:%d in %s: %s" % (e["file"], e["line"], th, e["msg"][:160]))
+                        tie_bad[m] = msgs or [out_m[-300:]]
+        gen_core = [e for e in g.get("errors", []) if not e.startswith("rs2lean:")]
+        gen_tie = [e for e in g.get("errors", []) if e.startswith("rs2lean:")]
+        if gen_core:
             # an item that could not be harvested is missing from BV.Gen: modules that use it no
             # longer compile (caught below); items nobody of this property uses are only noted
-            (broken if not lean_ok else notes).extend(["gen_source: " + e for e in g["errors"]])
+            (broken if not lean_ok else notes).extend(["gen_source: " + e for e in gen_core])
+        if gen_tie:
+            notes.extend(["translator: " + e for e in gen_tie if e.split(":")[1].strip() == prop or not tie_bad][:12])
+        if g.get("literals_reshaped"):
+            notes.append("literal lists whose shape changed (pinned list kept, tie by correspondence): " + "; ".join(g["literals_reshaped"][:8]))
         if not lean_ok:
             idx = {}
             for e in errs:
@@ -404,7 +445,7 @@ def check(prop, tier, seed, replay=None):
                 broken.append("lean: lake build failed: " + out[-500:])
         aud = {"theorems": {}, "forbidden": [], "examples": 0, "failed": [], "bad_axioms": {}}
         if lean_ok:
-            aud = audit(cfg["lean_modules"])
+            aud = audit(core_mods + tie_ok)
             for n in aud["failed"]:
                 broken.append("audit: no axiom report for " + n)
             for n, ax in aud["bad_axioms"].items():
@@ -412,7 +453,7 @@ def check(prop, tier, seed, replay=None):
             for f in aud["forbidden"]:
                 broken.append("audit: forbidden token " + f)
             if tier == "thorough":
-                for mod in cfg["lean_modules"]:
+                for mod in core_mods + tie_ok:
                     rcc, outc, dtc = sh(["lake", "env", "leanchecker", mod], cwd=LEAN, timeout=3600)
                     if rcc != 0:
                         broken.append("leanchecker: %s: %s" % (mod, outc[-300:]))
@@ -438,9 +479,9 @@ def check(prop, tier, seed, replay=None):
         # escalation: a broken obligation or a disagreement with nothing found -> thorough search
         found = any(s.get("report", {}).get("violations") for s in stages)
         dis = any(s.get("corr", {}).get("ndis") for s in stages)
-        if (broken or dis or moved) and not found and tier == "quick":
+        if (broken or dis or moved or tie_bad or g.get("literals_reshaped")) and not found and tier == "quick":
             notes.append("escalated search to thorough budget (%s without a failing input)" % (
-                "broken obligation / disagreement" if (broken or dis) else "anchored functions changed since the pinned baseline"))
+                "broken obligation / disagreement" if (broken or dis) else "anchored functions changed since the pinned baseline / translator tie degraded"))
             # bounded: thorough budget of the implementation-side search only, <= ESC_STAGE s per stage and
             # <= ESC_TOTAL s in all (a harmless rewrite of an anchored function must not cost an hour)
             esc_stage = int(os.environ.get("VERIF_ESCALATE_STAGE_S", "420"))
@@ -465,6 +506,7 @@ def check(prop, tier, seed, replay=None):
                     s1["report"]["evaluations"] = s1["report"].get("evaluations", 0) + s2.get("report", {}).get("evaluations", 0)
     # ---- verdict
     known = load_known()
+    lines_out = []
     violations = []
     known_hits = []
     for s in stages:
@@ -483,7 +525,6 @@ def check(prop, tier, seed, replay=None):
             for cr in c["driver_crashed"]:
                 broken.append("driver: " + cr)
     exit_code = 0
-    lines_out = []
     seen_known = set()
     for k, v in known_hits:
         key = k.get("signature") + json.dumps(k.get("case_match", {}), sort_keys=True)
@@ -493,6 +534,13 @@ def check(prop, tier, seed, replay=None):
         lines_out.append("KNOWN-FINDING: property=%s %s" % (prop, k.get("what", k.get("signature"))))
     impl_v = [v for v in violations if v[0] == "impl-violates-property"]
     dis_v = [v for v in violations if v[0] == "model-impl-disagreement"]
+    if tie_bad:
+        if impl_v or dis_v or broken:
+            # together with a disagreement / failing input / broken core obligation the lost tie is part of the finding
+            for m, msgs in tie_bad.items():
+                broken.append("tie module %s no longer builds: %s" % (m, " | ".join(msgs[:3])))
+        else:
+            lines_out.append("TIE-DEGRADED: property=%s translator tie (a) lost for %s (rewritten outside the translator's subset or the equivalence proof no longer matches); property theorems, correspondence and search still check" % (prop, ", ".join(sorted(tie_bad))))
     replay_path = None
     if impl_v or dis_v or broken:
         exit_code = 1
@@ -545,6 +593,7 @@ def check(prop, tier, seed, replay=None):
             "gen": {k: g.get(k) for k in ("items", "fns", "translated_fns", "changed_source", "errors")},
             "stage_wall_s": {s["name"]: s["wall_s"] for s in stages},
             "repo_head": head, "notes": notes, "fingerprint_mismatches": moved,
+            "tie_modules": {"checked": tie_ok, "degraded": tie_bad},
             "known_findings_hit": [k.get("signature") for k, _ in known_hits][:20],
         },
         "assumptions": cfg.get("assumptions", []),
